@@ -121,20 +121,34 @@ def literal_inline(c):
     the interpreter cannot follow leaves a non-literal in the field and the rule fails closed)"""
     return 'ldap3::controls_impl::' in c or 'ldap3::exop_impl::' in c or c == 'lber::parse::parse_uint'
 
-def eval_with_content(f, B, ordinal, octets):
+def eval_with_content(f, B, ordinal, octets, reads=None):
     """The paths of decoder B when the primitive content of the component read at cursor position `ordinal` is the literal octet
     string (either spelling of "the content": expect_primitive() of that element, or its PL::P payload); everything else about the
-    value stays symbolic."""
+    value stays symbolic.  `reads` collects what the content was taken from: ('checked', t) for expect_primitive(t) - t shows the
+    class / tag requirements the element had to pass -, ('payload', t) for the payload field of element t."""
     of = lambda t: nths(t) == [ordinal]
+    def note(r):
+        if reads is not None and r not in reads:
+            reads.append(r)
     def content(I, cal, args, node, st):
         if cal.endswith('::expect_primitive') and len(args) == 1 and of(args[0]):
+            note(('checked', args[0]))
             return [absx.Out('val', ('ctor', 'Some', (('lit', octets),)), st)]
         return None
     def payload(base, name, st):
         if name == 'payload' and of(base):
+            note(('payload', base))
             return ('ctor', 'PL::P', (('lit', octets),))
         return None
     return absx.Interp(f, B, summaries=[content], unroll=16, inline=literal_inline, field_hook=payload, combinators=True).run()
+
+def source_is(reads, tagno):
+    """every place the literal content was substituted at is the content of an element of the parsed input's child sequence that
+    had to pass match_class(Universal) and match_id(tagno) first (the term handed to expect_primitive is the result of that chain)"""
+    return bool(reads) and all(k == 'checked' and has_arg(t, 'match_id', lambda a: a == ('lit', tagno))
+                               and has_arg(t, 'match_class', lambda a: a == ('ctor', 'TagClass::Universal', ()))
+                               and all(c in calls_in(t) for c in ('parse_tag', 'expect_constructed')) and absx.leaves(t, lambda x: x[0] == 'param') != []
+                               for k, t in reads)
 
 def wrap_int(v, ty):
     rng = absx.INT_RANGE[ty]
@@ -152,9 +166,9 @@ def check_int_field(ctx, f, B, rule, inst, ordinal, struct_path, field):
     ty = field_type(f, struct_path, field)
     if ty not in absx.INT_RANGE:
         ctx.fail(rule, inst, loc(B.root), 'field %s of %s has type %s, not an integer type' % (field, struct_path, ty)); return
-    wrong, vecs = [], int_vectors()
+    wrong, vecs, reads = [], int_vectors(), []
     for v in vecs:
-        outs = [o for o in eval_with_content(f, B, ordinal, v) if o.kind != 'div']
+        outs = [o for o in eval_with_content(f, B, ordinal, v, reads) if o.kind != 'div']
         want = wrap_int(int.from_bytes(v, 'big'), ty)
         got = [dict(o.val[2]).get(field, ('unk',)) if o.kind in ('val', 'ret') and o.val[0] == 'struct' else ('unk', o.kind) for o in outs]
         if not got or any(g != ('lit', want) for g in got):
@@ -164,15 +178,7 @@ def check_int_field(ctx, f, B, rule, inst, ordinal, struct_path, field):
             'the integer reader does not yield the big-endian value of the content octets (as %s): evaluated exactly on %d literal octet strings '
             '(lengths 0..12), %d differ%s; (octets, decoded, big-endian value as %s): %s'
             % (ty, len(vecs), len(wrong), ', all of them with an octet >= 0x80' if wrong and len(high) == len(wrong) else '', ty, wrong[:4]))
-
-def content_reads(terms, ordinal):
-    """the expect_primitive(..) call terms over the element read at cursor position `ordinal` that occur in the given terms"""
-    out = []
-    for t in terms:
-        for x in absx.leaves(t, lambda x: x[0] == 'call' and x[1].endswith('::expect_primitive') and len(x[2]) == 1 and nths(x[2][0]) == [ordinal]):
-            if x not in out:
-                out.append(x)
-    return out
+    return reads
 
 def run(ctx):
     f = ctx.facts
@@ -270,26 +276,19 @@ def run(ctx):
     for o in outs:
         fl = dict(o.val[2])
         size, cookie = fl.get('size', ('unk',)), fl.get('cookie', ('unk',))
-        # where the integer comes from: the content of child 0 of the parsed value, required to be a universal INTEGER primitive;
-        # how the content octets become the integer is decided below by literal evaluation, whatever function does it
-        src = content_reads([size], 0)
-        ok = nths(size) == [0] and all(c in calls_in(size) for c in ('parse_tag', 'expect_constructed', 'expect_primitive', 'match_id', 'match_class')) \
-            and len(src) == 1 and has_arg(src[0], 'match_id', lambda a: a == ('lit', 2)) and has_arg(src[0], 'match_class', lambda a: a == ('ctor', 'TagClass::Universal', ()))
-        ctx.add('Y.paged.size', 'child 0', loc(B.root), ok, 'size is not computed from the content of child 0 required to be a universal INTEGER primitive: %s' % absx.fmt(size)[:100])
         ctx.add('Y.paged.cookie', 'child 1', loc(B.root), nths(cookie) == [1] and 'expect_primitive' in calls_in(cookie), 'cookie is not the content of child 1')
-        ctx.add('Y.paged.input', 'val', loc(B.root), 'parse_tag' in calls_in(size) and absx.leaves(size, lambda x: x[0] == 'param') != [], 'the parsed bytes are not the control value')
-    check_int_field(ctx, f, B, 'Y.paged.size', 'integer reader', 0, 'ldap3::controls_impl::paged_results::PagedResults', 'size')
+        ctx.add('Y.paged.input', 'val', loc(B.root), 'parse_tag' in calls_in(cookie) and absx.leaves(cookie, lambda x: x[0] == 'param') != [], 'the parsed bytes are not the control value')
+    # the size: how the content octets of child 0 become the integer is decided by literal evaluation, whatever function does it;
+    # where they come from is read off the term the content was taken from (not off the size term, which is a loop-carried
+    # value when the reader is a loop written in place)
+    reads = check_int_field(ctx, f, B, 'Y.paged.size', 'integer reader', 0, 'ldap3::controls_impl::paged_results::PagedResults', 'size')
+    ctx.add('Y.paged.size', 'child 0', loc(B.root), source_is(reads or [], 2),
+            'size is not computed from the content of child 0 of the parsed control value, required to be a universal INTEGER primitive: content taken from %s' % [(k, absx.fmt(t)[:100]) for k, t in (reads or [])][:2])
     # SyncState
     B, outs = parse_paths('<ldap3::controls_impl::content_sync::SyncState as ' + CP)
     for o in outs:
         fl = dict(o.val[2])
         stt = fl.get('state', ('unk',))
-        # where the state comes from: whatever the path learned about the content of child 0 (the comparisons that selected the
-        # variant), that child having been required to be a universal ENUMERATED primitive
-        src = content_reads([a for a, _t in o.st.pc] + [stt], 0)
-        ctx.add('Y.syncstate.state-source', absx.fmt(stt)[:40], loc(B.root), bool(src) and all(has_arg(x, 'match_id', lambda a: a == ('lit', 10))
-                and has_arg(x, 'match_class', lambda a: a == ('ctor', 'TagClass::Universal', ())) for x in src),
-                'state is not read from child 0 as universal ENUMERATED')
         ctx.add('Y.syncstate.uuid', absx.fmt(stt), loc(B.root), nths(fl.get('entry_uuid', ('unk',))) == [1] and 'expect_primitive' in calls_in(fl['entry_uuid']), 'entryUUID is not the content of child 1')
         ck = fl.get('cookie', ('unk',))
         ctx.add('Y.syncstate.cookie', absx.fmt(stt) + ('|some' if ck != ('ctor', 'None', ()) else '|none'), loc(B.root),
@@ -297,9 +296,9 @@ def run(ctx):
     # which state each value denotes: the decoder is interpreted with the ENUMERATED's content fixed to literal octet strings (the
     # integer reader - parse_uint or any other - and the selection of the variant are evaluated exactly, see check_int_field)
     want = {0: 'EntryState::Present', 1: 'EntryState::Add', 2: 'EntryState::Modify', 3: 'EntryState::Delete'}     # RFC 4533 2.2
-    table, wrong, vecs = {}, [], int_vectors()
+    table, wrong, vecs, reads = {}, [], int_vectors(), []
     for v in vecs:
-        res = [o for o in eval_with_content(f, B, 0, v) if o.kind != 'div']
+        res = [o for o in eval_with_content(f, B, 0, v, reads) if o.kind != 'div']
         val = int.from_bytes(v, 'big')
         got = sorted({absx.fmt(dict(o.val[2]).get('state', ('unk',)))[:30] if o.kind in ('val', 'ret') and o.val[0] == 'struct' else o.kind for o in res})
         if len(v) == 1 and len(got) == 1:
@@ -308,6 +307,8 @@ def run(ctx):
             wrong.append((v.hex() or '(empty)', got or 'rejected', want.get(val, 'rejected')))
     ctx.add('Y.syncstate.state-table', 'EntryState', loc(B.root), not wrong and table == want,
             'state table %s, RFC 4533: %s; evaluated exactly on %d literal contents of the ENUMERATED, (octets, decoded state, expected) differ at %s' % (table, want, len(vecs), wrong[:4]))
+    ctx.add('Y.syncstate.state-source', 'child 0', loc(B.root), source_is(reads, 10),
+            'state is not read from the content of child 0 of the parsed control value, required to be a universal ENUMERATED primitive: content taken from %s' % [(k, absx.fmt(t)[:100]) for k, t in reads][:2])
     # SyncDone (inductive argument over the component loop)
     check_syncdone(ctx, f)
     # parse_syncinfo
